@@ -197,6 +197,12 @@ def _walk_shard(arg):
     acc = Acc()
     walk(cal_id, a, b, acc)
     acc.outcome("walked:%s" % cal_id, b - a)
+    try:
+        cal = CalendarSystem.for_id(cal_id)
+        d0 = impl.date_from_days(cal, a)
+        acc.sample({"state": {"calendar": cal_id, "day": a}, "date": [d0.year, d0.month, d0.day], "iso": list(_iso_fields(a)), "block_end": b})
+    except Exception:  # noqa: BLE001
+        pass
     return acc
 
 
@@ -242,6 +248,51 @@ def _months_shard(arg):
             _rejections(cal, cal_id, y, miy, acc)
         except Exception as e:  # noqa: BLE001
             acc.lib_exception("C01/%s/months/y%d" % (cal_id, y), e, {"calendar": cal_id, "year": y})
+    return acc
+
+
+# ---- order independence of the year tables (state carried between calls must not change the mapping) ----------------
+
+def _year_shape(cal, y):
+    miy = cal.get_months_in_year(y)
+    starts = tuple(impl.days_of(LocalDate(y, m, 1, cal)) for m in range(1, miy + 1))
+    return (cal.get_days_in_year(y), bool(cal.is_leap_year(y)), tuple(cal.get_days_in_month(y, m) for m in range(1, miy + 1)), starts)
+
+
+def _order_shard(cal_id):
+    """The mapping must not depend on the order in which years are visited: compute every year's table in three visiting
+    orders inside ONE process (descending; by cache slot - years 1024 apart visited consecutively, descending; ascending)
+    and demand identical tables, each also consistent with itself (month starts + lengths tile the year)."""
+    acc = Acc()
+    cal = CalendarSystem.for_id(cal_id)
+    years = list(range(cal.min_year, cal.max_year + 1))
+    orders = {
+        "descending": list(reversed(years)),
+        "by-cache-slot": [y for r in range(1024) for y in range(cal.max_year - ((cal.max_year - r) % 1024), cal.min_year - 1, -1024)],
+        "ascending": years,
+    }
+    tables = {}
+    for name, order in orders.items():
+        t = {}
+        for y in order:
+            acc.count(transitions=1, evaluations=1)
+            try:
+                t[y] = _year_shape(cal, y)
+            except Exception as e:  # noqa: BLE001
+                acc.lib_exception("C01/%s/order-%s/y%d" % (cal_id, name, y), e, {"calendar": cal_id, "year": y, "order": name})
+        tables[name] = t
+        for y, (diy, leap, lens, starts) in t.items():
+            if sum(lens) != diy:
+                acc.violation("C01/%s/order-%s-inconsistent/y%d" % (cal_id, name, y), "visiting years %s: year %d has %d days but its months sum to %d" % (name, y, diy, sum(lens)),
+                              {"calendar": cal_id, "year": y, "order": name})
+    base = tables["ascending"]
+    for name in ("descending", "by-cache-slot"):
+        for y, v in tables[name].items():
+            if y in base and base[y] != v:
+                acc.violation("C01/%s/order-dependent/y%d" % (cal_id, y), "year %d: table computed while visiting years %s = %r, ascending = %r" % (y, name, v, base[y]),
+                              {"calendar": cal_id, "year": y, "order": name})
+    acc.count(states=len(years), nontrivial=len(years))
+    acc.outcome("order-independent:%s" % cal_id)
     return acc
 
 
@@ -335,6 +386,8 @@ def run(ctx):
             jobs.append((i, a, b))
     for acc in pmap(_months_shard, jobs, chunksize=2):
         ctx.merge_part("months_of_every_year", acc)
+    for acc in pmap(_order_shard, ids):
+        ctx.merge_part("year_tables_order_independent", acc)
     jobs = []
     for i in ids:
         cal = CalendarSystem.for_id(i)
